@@ -257,8 +257,11 @@ func (pr *printer) predFunc(f *FlowP, t *TaskP) string {
 	return "func(" + strings.Join(params, ", ") + ") bool { return " + c + ") }"
 }
 
-func emitterOpts(pr *printer, n int, nest bool) []string {
+func emitterOpts(pr *printer, n int, nest, shared bool) []string {
 	var out []string
+	if shared {
+		out = append(out, "cff.WithEmitter("+pr.probe("emitter-shared", "h.SharedEmitter()")+")")
+	}
 	i := 0
 	if nest && n >= 2 {
 		out = append(out, "cff.WithEmitter("+pr.probe("emitter-stack", "cff.EmitterStack(h.Emitter(0), cff.EmitterStack(h.Emitter(1)))")+")")
@@ -406,7 +409,7 @@ func (pr *printer) flow(f *FlowP) string {
 		items = append(items, renderItem{render: func() string { return "cff.Concurrency(" + pr.probe("concurrency", "h.Conc(0)") + ")" }})
 	}
 	if f.Emitters > 0 {
-		items = append(items, renderItem{render: func() string { return strings.Join(emitterOpts(pr, f.Emitters, f.EmitNest), ",\n\t\t") }})
+		items = append(items, renderItem{render: func() string { return strings.Join(emitterOpts(pr, f.Emitters, f.EmitNest, f.EmitShared), ",\n\t\t") }})
 		if f.InstrFlow {
 			items = append(items, renderItem{render: func() string {
 				return "cff.InstrumentFlow(" + pr.probe("instrument-flow", fmt.Sprintf("%q", "f"+fmt.Sprint(pr.p.ID))) + ")"
@@ -604,7 +607,7 @@ func (pr *printer) par(p *ParP) string {
 		}})
 	}
 	if p.Emitters > 0 {
-		items = append(items, renderItem{render: func() string { return strings.Join(emitterOpts(pr, p.Emitters, p.EmitNest), ",\n\t\t") }})
+		items = append(items, renderItem{render: func() string { return strings.Join(emitterOpts(pr, p.Emitters, p.EmitNest, p.EmitShared), ",\n\t\t") }})
 		if p.InstrPar {
 			items = append(items, renderItem{render: func() string {
 				return "cff.InstrumentParallel(" + pr.probe("instrument-parallel", fmt.Sprintf("%q", "f"+fmt.Sprint(pr.p.ID))) + ")"
